@@ -22,7 +22,10 @@ TRUSTED_BASE = [
     "Rust harness /verif/harness engine `bstream`: the real RouterHandler::read_from_router (io.rs bmp_read/BmpStream::next, the read loop, "
     "process_msg, the post-loop cleanup) over a scripted AsyncRead, through the facade rotonda::verif::bmp_stream (feature verif-hooks); the "
     "updates are captured by a real Link in direct-update mode; the connection objects are built as unit.rs builds them",
-    "well-formed BMP messages come from the repository's test encoders (rotonda::bgp::encode) via `vh bstream-render`",
+    "well-formed BMP messages come from the repository's test encoders (rotonda::bgp::encode) via `vh bstream-render`; the UPDATE octets of the "
+    "`RB` frames come from C04's proved encoder (oracle c04enc) and are read on the model side by C04's decoder (Pipe/PipeRaw.raw_upd)",
+    "op G: the real RouterListApi / RouterInfoApi process_request and the metrics sources, wired to the connection's own maps, state machine and "
+    "metrics by StreamFixture::http_get_router_list / http_get_router_info (verif-hooks); each request in a task of its own (a panic = `panic`)",
     "modelled, not verified: src/units/bmp_tcp_in/{io.rs,router_handler.rs}; the state machine and the ingress register are the models of C05/C14; "
     "routecore's BMP/BGP parsers and tokio are exercised, never modelled: the parser is a parameter of the model and every theorem holds for every parser",
 ]
@@ -35,6 +38,11 @@ ASSUMPTIONS = [
     "MessageType::Aborted is never produced (BmpState::_Aborted is never constructed in the code)",
     "frames that declare more than 1 MiB are not executed (bmp_read allocates the declared length before reading): noted, not run",
     "HashMap iteration order is arbitrary: id lists are compared as sorted lists of canonical names",
+    "the HTTP client visits while the connection waits for its next read (between two reads): a request concurrent with process_msg is not explored; "
+    "a visit after the session ended is not made (in production the router's endpoint is gone by then)",
+    "recent parse errors are one per InvalidMessage answer of the state machine (arrival numbers); an UPDATE re-parsed with the other AS width "
+    "(soft fail) is not modelled - no generated well-formed stream produces one (it would show as a different e<count>); arrival order on the page is "
+    "read off the entries' timestamps (wall clock, nanoseconds)",
 ]
 
 
